@@ -37,7 +37,7 @@ type Item struct {
 	// (covered by the signature, read by nobody in the block manager): valhash | valhash1 | lastcommit | consensus | results | version
 	Mut       string `json:"mut,omitempty"`
 	Sign      int    `json:"sign"`       // 0 keep the original signature, k>0 re-sign with key k, -1 junk bytes, -2 empty
-	SignerKey int    `json:"signer_key"` // -1 keep, 0 absent, k = public key of key k
+	SignerKey int    `json:"signer_key"` // -1 keep, 0 absent (the whole signer), k = public key of key k, -2 the public key removed and the ADDRESS kept / chosen by SignerAddr (the address-only signer the wire format allows)
 	// addresses: -1 keep, 0 empty, k = address of key k, -2 other bytes; non-canonical LENGTHS: -3 a proper prefix of the
 	// proposer's address (1, 2, 20 or 31 bytes, by Salt), -4 a proper prefix of the address of the signer's key,
 	// -5 the proposer's address followed by one more byte
@@ -488,6 +488,8 @@ func (w *world) build(it Item, dataHead *types.Data) *built {
 			switch {
 			case it.SignerKey == 0:
 				sh.Signer = types.Signer{}
+			case it.SignerKey == -2: // no public key, an address all the same (serialization.go FromProto keeps it)
+				sh.Signer = types.Signer{Address: w.addrBytes(it.SignerAddr, sh.Signer.Address, it)}
 			case it.SignerKey > 0:
 				sh.Signer = types.Signer{PubKey: w.keys[it.SignerKey].GetPublic(), Address: sh.Signer.Address}
 			}
@@ -581,6 +583,8 @@ func (w *world) build(it Item, dataHead *types.Data) *built {
 			switch {
 			case it.SignerKey == 0:
 				sd.Signer = types.Signer{}
+			case it.SignerKey == -2:
+				sd.Signer = types.Signer{Address: w.addrBytes(it.SignerAddr, sd.Signer.Address, it)}
 			case it.SignerKey > 0:
 				sd.Signer = types.Signer{PubKey: w.keys[it.SignerKey].GetPublic(), Address: sd.Signer.Address}
 			}
